@@ -154,6 +154,8 @@ def race_stage(ctx, binary, table_devs, devs):
     iters = 12 if ctx.thorough else 3
     logbase = os.path.join(ctx.sub("race"), "race")
     cases = [{"group": g, "iters": iters} for g in PAIRS + TRIPLES + [ACTORS]]
+    # long runs of the actors that REMOVE label values (del lines, Gc's limit eviction) and of those that add them
+    cases += [{"group": g, "iters": 2 if ctx.thorough else 1, "hammer": True} for g in (["vm", "gc"], ["vm", "vm2", "gc"], ["vm", "gc", "reload"])]
     out = vlib.run_harness(ctx, binary, args=["-mode=race"], cases=cases, timeout=2400,
                            env={"GORACE": "halt_on_error=0 exitcode=0 log_path=%s" % logbase})
     panics = [r for r in out if "panic" in r]
@@ -267,6 +269,9 @@ def run(ctx):
         d = {"json": "DEV_JSONMarshalsMetricUnlocked", "gc": "DEV_GcReadsLabelValuesUnlocked", "reload": "DEV_AddIteratesLabelValuesUnlocked"}.get(actor)
         if d in devs:
             crash_note.setdefault(d, []).append("%s (x%d)" % (p["panic"], p["count"]))
+        elif actor == "index":
+            ctx.violation({"index": p}, "after the concurrent actors finished a metric is no longer a map - slice and index disagree (%s, seen %d times): "
+                                        "some operation is not one critical section" % (p["panic"], p["count"]))
         else:
             ctx.violation({"panic": p}, "actor %s failed (panic or error from the real code) while running concurrently with the others: %s" % (actor, p["panic"]))
     for r in unknown[:5]:
